@@ -18,6 +18,7 @@ _PINNED_EDGES = None
 MAX_EDGE_BLOCKS = 150
 import re as _re_
 
+_TAG_CONV = _re_.compile(r"^<(u8|SignatureSchemes|Bls12381) as (From|TryFrom|FromStr|Display)|^(SignatureSchemes|Bls12381)::")
 _CODEC_NAME = _re_.compile(r"(^|_)(to|from)_(be|le)_bytes$|^scalar_(to|from)_|^(to|from)_bytes$|^to_vec$")
 
 
@@ -95,6 +96,48 @@ def _target(t, helpers):
     if r.get("key") in helpers:
         return r["key"]
     return None
+
+
+_PINNED_HASHES = None
+
+
+def body_hash(j):
+    """Hash of a function body that ignores source positions (a function is `changed` when this differs from the pinned
+    tree's; the extra normalisations - combinator desugaring, jump threading - are only applied to changed functions)."""
+    import hashlib
+    import json
+    import re
+
+    def strip(x):
+        if isinstance(x, dict):
+            return {k: strip(v) for k, v in x.items() if k not in ("sp", "fn_sp", "span", "hash", "src", "line")}
+        if isinstance(x, list):
+            return [strip(v) for v in x]
+        return x
+
+    txt = json.dumps(strip({"blocks": j["blocks"], "arg_count": j.get("arg_count"), "locals": [l.get("ty") for l in j["locals"]]}), sort_keys=True)
+    txt = re.sub(r"\{closure@[^}]*\}", "{closure}", txt)
+    txt = re.sub(r"\{closure#\d+\}", "{closure#}", txt)
+    return hashlib.sha1(txt.encode()).hexdigest()[:16]
+
+
+def is_changed(j):
+    """Does the body of j differ from every body the pinned tree has under this key (any configuration)?"""
+    global _PINNED_HASHES
+    if _PINNED_HASHES is None:
+        import json
+        import os
+
+        p = os.path.join(os.path.dirname(os.path.dirname(os.path.abspath(__file__))), "spec", "pinned_fns.json")
+        try:
+            with open(p) as fh:
+                _PINNED_HASHES = {k: set(v) for k, v in json.load(fh).get("hashes", {}).items()}
+        except Exception:
+            _PINNED_HASHES = {}
+    if not _PINNED_HASHES:
+        return False
+    hs = _PINNED_HASHES.get(j["key"])
+    return hs is None or body_hash(j) not in hs
 
 
 def _new_edge_target(j, t, by_key):
@@ -202,6 +245,8 @@ def _known_ctor(blocks, bi, local, preds):
             continue
         ps = preds.get(b, [])
         if not ps:
+            if b != 0:
+                continue  # a block nothing jumps to any more (left behind by threading): no way in, nothing to learn
             return None
         for p_ in ps:
             pt = blocks[p_]["term"]
@@ -329,6 +374,29 @@ def inline_helpers(fns_json):
     """fns_json: list of function JSON objects.  Returns a list in which every caller of a private helper has the
     helper's body spliced in (helpers themselves stay in the list, also with their own helper calls inlined)."""
     by_key = {j["key"]: j for j in fns_json}
+    # functions whose body differs from the pinned tree: combinators with closure literals become plain control flow,
+    # tests of values with a known constructor are threaded (see desugar.py)
+    try:
+        from .desugar import desugar_combinators, thread_known_ctors, splice_closure_calls
+
+        # (the tag-table conversions of the wire enums stay as they are: the codec rules fold them concretely, which
+        # wants the branch-free combinator form)
+        changed = [j for j in fns_json if not j.get("from_expansion") and is_changed(j) and not _TAG_CONV.search(j["key"])]
+        if changed and len(changed) < 400:
+            repl = {}
+            for j in changed:
+                nj = desugar_combinators(j, by_key)
+                nj = splice_closure_calls(nj, by_key)
+                nj = thread_known_ctors(nj)
+                if nj is not j:
+                    repl[j["key"]] = nj
+            if repl:
+                fns_json = [repl.get(j["key"], j) for j in fns_json]
+                by_key = {j["key"]: j for j in fns_json}
+    except Exception:
+        import traceback
+
+        traceback.print_exc()
     helpers = {k: j for k, j in by_key.items() if is_private_helper(j) and len(j["blocks"]) <= MAX_BLOCKS and not _calls_self(j, k)}
     _pinned()
     done = {}
@@ -389,6 +457,19 @@ def inline_helpers(fns_json):
     report = {}
     for j in fns_json:
         nj = expand(j, 0, frozenset([j["key"]]))
+        if nj is not j:
+            # closures handed to a spliced helper as `impl Fn..` parameters are called there: now that the helper's body
+            # is part of the caller, those calls can be resolved to the closure literal and spliced as well
+            try:
+                from .desugar import splice_closure_calls, thread_known_ctors
+
+                nj2 = splice_closure_calls(nj, by_key)
+                if nj2 is not nj:
+                    nj = thread_known_ctors(nj2)
+            except Exception:
+                import traceback
+
+                traceback.print_exc()
         if nj is not j:
             report[j["key"]] = nj.get("inlined", [])
         out.append(nj)
